@@ -75,6 +75,8 @@ def normalise(v):
     """What jawk holds after reading a JSON text: integral doubles in (-2^63, 2^64) are integers."""
     if isinstance(v, float):
         return norm(v)
+    if isinstance(v, int) and not isinstance(v, bool) and not (-(2 ** 63) <= v <= 2 ** 64 - 1):
+        return float(v)         # an integer literal outside the 64-bit range is read as the nearest double
     if isinstance(v, list):
         return [normalise(x) for x in v]
     if isinstance(v, dict):
